@@ -64,13 +64,38 @@ public:
       return r;
    }
    virtual bool TxIdle() {return cSends ? (MGHasBytesToOutput(cgw) == MFalse) : !cpp.HasBytesToOutput();}
+   virtual void SizeCases(std::vector<SizeCase> & out, bool big);
 };
 
 static Link * MakeLink(const std::string & cfg)
 {
-   if (cfg == "mini_tx") {MiniLink * l = new MiniLink(true);  return l;}
-   if (cfg == "mini_rx") {MiniLink * l = new MiniLink(false); return l;}
+   if (cfg == "mini_tx") {MiniLink * l = new MiniLink(true);  l->name = cfg; return l;}
+   if (cfg == "mini_rx") {MiniLink * l = new MiniLink(false); l->name = cfg; return l;}
    return NULL;
+}
+
+// thresholds of MiniMessageGateway.c (MGDoInput): the input buffer starts with the 8 header bytes, is replaced by one of 2 x (header + body) bytes
+// when a frame does not fit, and by one of 64 KiB after a Message when it has grown beyond 64 KiB
+static const uint32_t kMiniHeader = 8, kMiniShrink = 64 * 1024;
+void MiniLink :: SizeCases(std::vector<SizeCase> & out, bool big)
+{
+   const MsgSpec small = MenuMessage(FAM_BIN, 0, 1, true, false);
+   // the C++ side's scratch receive buffer (2048 - 8) and compression-free small frames, as in gw.cpp
+   for (uint32_t n = 2030; n <= 2060; n++) out.push_back(Case1(Fmt("scratch receive buffer of the C++ side: Message of %u bytes", n), SizedBin(n, true), &small));
+   for (uint32_t n = 12; n <= 44; n++) {if ((n > 12)&&(n < 27)) continue; const MsgSpec m = SizedBin(n, false); out.push_back(Case1(Fmt("small Message of %u bytes, twice", n), m, &m));}
+   // buffer doubling: a first frame of f1 bytes leaves a buffer of 2 x f1 bytes; the next frame is one of 2 x f1 - 2 .. 2 x f1 + 2 bytes, and so on
+   for (uint32_t f1 = 1008; f1 <= 1009; f1++) for (int d = -2; d <= 2; d++) {
+      SizeCase c; c.what = Fmt("buffer doubling: frames of %u, %u, %u bytes", f1, 2 * f1 + d, 2 * (2 * f1 + d) + d);
+      c.msgs.push_back(SizedBin(f1 - kMiniHeader, true)); c.msgs.push_back(SizedBin(2 * f1 + d - kMiniHeader, true)); c.msgs.push_back(SizedBin(2 * (2 * f1 + d) + d - kMiniHeader, false)); c.msgs.push_back(small); out.push_back(c);
+   }
+   // the 64 KiB shrink: a frame that makes the buffer larger than 64 KiB, then frames of 64 KiB - 3 .. + 3 bytes (fit exactly / need a new buffer), and the frame sizes at which the shrink starts
+   const uint32_t firsts[] = {40000, 70000};
+   for (size_t i=0; i<2; i++) for (int d = -3; d <= 3; d++) {
+      SizeCase c; c.what = Fmt("64 KiB shrink: frame of %u bytes, then %u bytes, then %u bytes", firsts[i], kMiniShrink + d, kMiniShrink + d);
+      c.msgs.push_back(SizedBin(firsts[i] - kMiniHeader, true)); c.msgs.push_back(SizedBin(kMiniShrink + d - kMiniHeader, true)); c.msgs.push_back(SizedBin(kMiniShrink + d - kMiniHeader, false)); c.msgs.push_back(small); out.push_back(c);
+   }
+   for (int d = -2; d <= 2; d++) {SizeCase c; c.what = Fmt("64 KiB shrink: buffer of 2 x %u bytes", kMiniShrink / 2 + d); c.msgs.push_back(SizedBin(kMiniShrink / 2 + d - kMiniHeader, true)); c.msgs.push_back(small); c.msgs.push_back(SizedBin(kMiniShrink / 2 + d - kMiniHeader, false)); out.push_back(c);}
+   if (big) {const uint32_t bs[] = {1048576, 3000000}; for (size_t i=0; i<2; i++) out.push_back(Case1(Fmt("large Message of %u bytes", bs[i]), SizedBin(bs[i], true), &small));}
 }
 
 int main(int argc, char ** argv)
